@@ -95,8 +95,13 @@ func datagramGen() *rapid.Generator[[]byte] {
 			k := rapid.IntRange(0, 12).Draw(t, "lines")
 			var parts []string
 			for i := 0; i < k; i++ {
-				if rapid.IntRange(0, 4).Draw(t, "valid") == 0 {
+				if v := rapid.IntRange(0, 5).Draw(t, "valid"); v == 0 {
 					parts = append(parts, gen.Line().Draw(t, "line").Line)
+				} else if v == 5 {
+					// a valid line whose tag list repeats tags, host: tags among them, in any position (the ignore-host branch
+					// edits the tag list while it walks it)
+					tags := rapid.SliceOfN(rapid.SampledFrom([]string{"host:h", "host:h", "host:g", "host:", "x", "y", "z:1"}), 0, 6).Draw(t, "host-tags")
+					parts = append(parts, "f:2|"+rapid.SampledFrom([]string{"c", "g", "ms", "s"}).Draw(t, "host-type")+"|#"+strings.Join(tags, ","))
 				} else {
 					parts = append(parts, rapid.SampledFrom(linePieces).Draw(t, "piece"))
 				}
